@@ -507,8 +507,22 @@ fn run_map<T: El + Send + Sync>(spec: &ShardSpec, cur: Option<&str>) -> Outcome 
     let part: usize = spec.extra.get("part").and_then(|s| s.parse().ok()).unwrap_or(0);
     let parts: usize = spec.extra.get("parts").and_then(|s| s.parse().ok()).unwrap_or(1);
     let mut fam = build_family::<MapWorld<T>>(&cfg, "mut1+ch0+shape", spec.n, cap, &mut out, cur);
-    if !T::ZST && spec.extra.get("big").map_or(true, |s| s == "1") {
+    if !T::ZST && (cfg.hk == gmc::hasher::H_GOOD || cfg.hk == gmc::hasher::H_TAG) && spec.extra.get("big").map_or(true, |s| s == "1") {
         fam.push((0..460).map(|k| Op::key(OpK::Insert, k)).collect());
+        // late in a resize, with all but 1 / 2 / 3 of the remaining old-table elements removed again
+        // (an old table that holds very few elements next to a large main table)
+        for (n0, keep) in [(62u32, 1usize), (124, 1), (124, 2), (124, 3)] {
+            let mut h: Vec<Op> = (0..n0).map(|k| Op::key(OpK::Insert, k)).collect();
+            reset_exec();
+            if let Ok(w) = build::<MapWorld<T>>(&cfg, &h) {
+                let ids = w.old_ids(&w.dump());
+                w.discard();
+                if ids.len() > keep {
+                    h.extend(ids[..ids.len() - keep].iter().map(|&k| Op::key(OpK::Remove, k)));
+                    fam.push(h);
+                }
+            }
+        }
     }
     out.layers.push((fam.len() as u64, 0));
     let mut sigs = HashSet::new();
@@ -588,9 +602,22 @@ fn run_set<T: El + Send + Sync>(spec: &ShardSpec, cur: Option<&str>) -> Outcome 
     let mut fam = build_family::<SetWorld<T>>(&cfg, "skey+sshape", spec.n, cap, &mut out, cur);
     let n_small = fam.len();
     // two large members (one mid-resize at 460 elements, one settled at 300): size thresholds in the glue
-    if !T::ZST && spec.extra.get("big").map_or(true, |s| s == "1") {
+    if !T::ZST && (cfg.hk == gmc::hasher::H_GOOD || cfg.hk == gmc::hasher::H_TAG) && spec.extra.get("big").map_or(true, |s| s == "1") {
         fam.push((0..460).map(|k| Op::key(OpK::SInsert, k)).collect());
         fam.push((0..300).map(|k| Op::key(OpK::SInsert, k)).collect());
+        for (n0, keep) in [(124u32, 1usize), (124, 2)] {
+            let mut h: Vec<Op> = (0..n0).map(|k| Op::key(OpK::SInsert, k)).collect();
+            reset_exec();
+            if let Ok(w) = build::<SetWorld<T>>(&cfg, &h) {
+                let d = w.dump();
+                let ids: Vec<u32> = d.old.as_ref().map_or(vec![], |o| o.elems.iter().filter(|&&e| e != u64::MAX).map(|e| (e >> 8) as u32).collect());
+                w.discard();
+                if ids.len() > keep {
+                    h.extend(ids[..ids.len() - keep].iter().map(|&k| Op::key(OpK::SRemove, k)));
+                    fam.push(h);
+                }
+            }
+        }
     }
     out.layers.push((fam.len() as u64, 0));
     let mut sigs = HashSet::new();
